@@ -121,6 +121,9 @@ type EndpointCfg struct {
 	Health   []Phase           `json:"health,omitempty"`   // health-probe behaviour over time (last phase with From<=now)
 	Listing  []Phase           `json:"listing,omitempty"`  // model-listing behaviour over time
 	HostMode []Phase           `json:"host_mode,omitempty"`
+	// StaleRST: permille of proxied exchanges arriving on a connection that has already served one which
+	// are reset before any answer (the stale keep-alive race as the dialer sees it: request written, then RST)
+	StaleRST int `json:"stale_rst,omitempty"`
 }
 
 // Phase is a piece-wise constant behaviour: in force from From until the next phase.
@@ -145,9 +148,9 @@ type Resp struct {
 	Chunks   []Chunk       `json:"chunks,omitempty"`
 	Raw      string        `json:"raw,omitempty"`
 	Fault    *Fault        `json:"fault,omitempty"`
-	Gate     bool          `json:"gate,omitempty"` // send chunk k+1 only after the client has read chunk k
+	Gate     bool          `json:"gate,omitempty"`      // send chunk k+1 only after the client has read chunk k
 	GateMark bool          `json:"gate_mark,omitempty"` // with Gate: progress = the client has seen the previous chunk's Mark (translated streams: byte counts differ)
-	Tag      string        `json:"tag,omitempty"`  // body cell tag (distinguishable bodies)
+	Tag      string        `json:"tag,omitempty"`       // body cell tag (distinguishable bodies)
 }
 
 // Chunk is one body piece; Data wins over N (N bytes of tagged cells).
@@ -155,7 +158,7 @@ type Chunk struct {
 	Delay time.Duration `json:"delay,omitempty"`
 	N     int           `json:"n,omitempty"`
 	Data  string        `json:"data,omitempty"`
-	B64   string        `json:"b64,omitempty"` // arbitrary bytes (wins over Data)
+	B64   string        `json:"b64,omitempty"`  // arbitrary bytes (wins over Data)
 	Mark  string        `json:"mark,omitempty"` // text the client must have seen (in whatever dialect) before the next chunk is sent, when gating by marks
 }
 
@@ -183,16 +186,17 @@ type ClientOp struct {
 }
 
 type BodySpec struct {
-	Kind      string        `json:"kind"` // none | json | raw | anthropic | literal
-	N         int           `json:"n,omitempty"`
-	Model     string        `json:"model,omitempty"`
-	Stream    bool          `json:"stream,omitempty"`
-	Chunked   bool          `json:"chunked,omitempty"`
-	Frag      []int         `json:"frag,omitempty"` // client-side write fragmentation
-	FragDelay time.Duration `json:"frag_delay,omitempty"`
-	CType     string        `json:"ctype,omitempty"`
-	Literal   string        `json:"literal,omitempty"`
-	Tools     int           `json:"tools,omitempty"`
+	Kind        string        `json:"kind"` // none | json | raw | anthropic | literal
+	N           int           `json:"n,omitempty"`
+	Model       string        `json:"model,omitempty"`
+	Stream      bool          `json:"stream,omitempty"`
+	Chunked     bool          `json:"chunked,omitempty"`
+	Frag        []int         `json:"frag,omitempty"` // client-side write fragmentation
+	FragDelay   time.Duration `json:"frag_delay,omitempty"`
+	CType       string        `json:"ctype,omitempty"`
+	Literal     string        `json:"literal,omitempty"`
+	Tools       int           `json:"tools,omitempty"`
+	ToolVariety bool          `json:"tool_variety,omitempty"` // anthropic: tools with varying optional keys and stop_sequences, every value naming the request
 }
 
 type Abort struct {
